@@ -116,6 +116,8 @@ func (ex *Exec) invoke(s *State, recv *IfaceV, m *types.Func, args []Value, site
 		ret Value
 	}
 	var outs []outcome
+	r0 := ex.restrictions
+	prePC := s.pc[:len(s.pc):len(s.pc)]
 	live := 0
 	for _, a := range recv.alts {
 		if a.typ != nil && !ex.simp(s, a.g).IsFalse() {
@@ -177,6 +179,10 @@ func (ex *Exec) invoke(s *State, recv *IfaceV, m *types.Func, args []Value, site
 	*s = *acc
 	s.regs = regs
 	s.regsShare = false
+	if ex.restrictions == r0 {
+		s.pc = prePC
+		ex.rebuildFacts(s)
+	}
 	ret := s.ret
 	s.ret = nil
 	return ret
@@ -193,6 +199,8 @@ func (ex *Exec) splitIfaceArgs(f *ssa.Function) bool {
 // splitCall runs f once per dynamic type of argument i and merges the outcomes.
 func (ex *Exec) splitCall(s *State, f *ssa.Function, args []Value, bind []Value, i int, live []IAlt, site string) Value {
 	var acc *State
+	r0 := ex.restrictions
+	prePC := s.pc[:len(s.pc):len(s.pc)]
 	for _, al := range live {
 		cs := s.clone()
 		if !ex.assume(cs, al.g) {
@@ -220,6 +228,10 @@ func (ex *Exec) splitCall(s *State, f *ssa.Function, args []Value, bind []Value,
 	*s = *acc
 	s.regs = regs
 	s.regsShare = false
+	if ex.restrictions == r0 {
+		s.pc = prePC
+		ex.rebuildFacts(s)
+	}
 	ret := s.ret
 	s.ret = nil
 	return ret
@@ -357,6 +369,7 @@ func (ex *Exec) intrinsic(s *State, f *ssa.Function, name string, args []Value, 
 			s.heap[id].name = "input buffer"
 			return &SliceV{alts: []SAlt{{g: tb.True, obj: id, off: ex.i64(0)}}, ln: ex.i64(n), cp: ex.i64(n)}, true
 		case "vpAssume":
+			ex.restrictions++
 			ex.assume(s, args[0].(*Term))
 			return &TupleV{}, true
 		case "vpAssert":
@@ -468,6 +481,7 @@ func (ex *Exec) intrinsic(s *State, f *ssa.Function, name string, args []Value, 
 			return tb.BV(x.val, x.sort.W), true
 		}
 		v := tb.Fresh("fbits", BVSort(x.sort.W))
+		ex.restrictions++
 		ex.assume(s, tb.Eq(tb.FpFromBits(v), x))
 		return v, true
 	case "math.IsNaN":
